@@ -111,6 +111,13 @@ def main():
                         if ex["bound"] >= 2:
                             for j in range(0, n.get(second, 0) + 1, ex.get("stride2", stride * 4)):
                                 plans.append([[first, i], [second, j], [first, -1]])
+            # entry-aligned schedules: `first` is inside its block, about to run a call; `second` activates and is stopped at
+            # the entry of its own call (the frame exists, not one instruction of it has run); `first` then finishes its round
+            for first in tids:
+                for second in tids:
+                    if second != first:
+                        plans.insert(0, [[first, -2], [second, -2], [first, -1]])
+                        plans.insert(0, [[first, -2], [second, -2], [first, -2], [second, -1]])
             if len(tids) >= 3:
                 # one thread has already finished a complete round (its captures released) before the other two interleave
                 for x in tids:
@@ -124,7 +131,7 @@ def main():
             if ex.get("max") and len(plans) > ex["max"]:
                 import random
                 rng = random.Random(ex.get("seed", 0))
-                keep = [p for p in plans if len(p) == 2]
+                keep = [p for p in plans if len(p) == 2 or any(k == -2 for _, k in p)]
                 rest = [p for p in plans if len(p) != 2]
                 rng.shuffle(rest)
                 plans = (keep + rest)[:ex["max"]] if len(keep) < ex["max"] else keep[:ex["max"]]
